@@ -338,6 +338,10 @@ def run(pid, tier):
                if c['kind'] == 'scan' or c['p']['ns'] != NONE or
                c['p']['id'] != NONE}
     v.cov.update({
+        'exhaustive': False,
+        'exhaustive_note': 'the TLC universe is enumerated completely (G1 '
+                           'and every packet of it in G2); the random '
+                           'packets and mutated frames are seeded samples',
         'states': len(universe), 'transitions': len(cases),
         'traces_validated_against_impl': len(cases) if r2.ok else 0,
         'samples': [cases[11], cases[len(cases) // 2], cases[-3]],
